@@ -10,7 +10,7 @@ slice `AcquireFrame` returned (`sync.Pool` is the runtime's).
 -/
 import Sonic.Model.WsEncode
 
-namespace Sonic.Model.WsStream
+namespace Sonic.Model.WsWritePath
 open Sonic.Model.WsBuf Sonic.Model.WsFrame Sonic.Model.WsEncode
 
 /-- `Write`-type errors. -/
@@ -191,4 +191,4 @@ def step (s : WS) (id : Nat) : WOp → M (Option (WS × Out))
       else pure (some (s, if async then { cbs := [(id, .cancelled)] } else { res := some .cancelled }))
   | .pump => pure (some (asyncRun (2 * s.pending.length + 4) s {} false))
 
-end Sonic.Model.WsStream
+end Sonic.Model.WsWritePath
